@@ -527,9 +527,15 @@ func (x *Exec) valuesEqual(fr *Frame, st *State, a, b Value, pos token.Pos) *Ter
 	if b.K == KScalar && a.K == KPtr && b.X != nil && a.Loc != nil && len(a.Loc.Elems) == 0 && b.X.S == a.Loc.Root.S {
 		return Eq(b.X, a.Loc.Root)
 	}
+	if a.K != b.K {
+		unsupported("comparison of values of different kinds (%v and %v)", a.K, b.K)
+	}
+	if (a.K == KPtr || a.K == KSlice) && (a.Loc == nil || b.Loc == nil) {
+		unsupported("comparison of a %v value without a location", a.K)
+	}
 	switch a.K {
 	case KScalar, KArray, KMap:
-		if a.X.S != b.X.S {
+		if a.X == nil || b.X == nil || a.X.S != b.X.S {
 			unsupported("comparison of different sorts")
 		}
 		if a.K == KArray && a.T != nil {
